@@ -41,7 +41,7 @@ RULE = (
 ASSUMPTIONS = ["contradictory spellings (DISABLED false with DISABLE true) are not generated", "AllOptions is excluded (it would expose the switch keys as values)"]
 FLOORS = {"steps": (5000, 60000), "cache_off_steps": (2500, 30000), "effects_off_steps": (2000, 25000), "logging_off_steps": (2000, 25000),
           "log_records_matched": (2500, 40000), "nocache_graph_steps": (200, 4000), "logging_context_outside_cache_context": (100, 1500),
-          "log_effect_steps": (1400, 20000), "log_effect_records_matched": (100, 1500)}
+          "log_effect_steps": (1400, 20000), "log_effect_records_matched": (100, 1500), "cache_on_shadow_steps": (700, 10000)}
 COVER = {"mode_combinations": [f"{c}/{e}/{l}" for c in CACHE_MODES for e in EFFECT_MODES for l in LOG_MODES]}
 SHARDS_QUICK = 4
 FEATURES = {"allopts": False, "domains": False, "preset_templates": False}
@@ -346,6 +346,52 @@ def log_effect_family(ctx, r, case):
             if want:
                 ctx.count("log_effect_records_matched", want)
             ctx.nontrivial(spec_hash(["log-effect", case, step, cm, em, lm]))
+        # caching left ON throughout: switching effects / logging off and on again changes nothing but the effects and
+        # the records - in particular not WHEN the body runs.  A shadow instance gets the same dictionaries without any
+        # switch; body runs must coincide step by step (the effect reads an option of its own that is present).
+        from labrea import pipeline_step
+
+        def make():
+            n = [0]
+
+            def body2(a=Option("A", 0)):
+                n[0] += 1
+                return ("v2", a)
+
+            @pipeline_step
+            def audit(value, channel=Option("CHANNEL", "c"), limit=Option("S.X", 1)):
+                return None
+
+            d2 = dataset(body2, effects=[audit])
+            return d2, n
+
+        (dA, nA), (dB, nB) = make(), make()
+        pool2 = [{"A": 1, "CHANNEL": "x"}, {"A": 1, "CHANNEL": "y"}, {"A": 2, "CHANNEL": "x", "S": {"X": 3}}, {"A": 1}]
+        side = [(em, lm) for em in EFFECT_MODES for lm in LOG_MODES] * 2
+        r.shuffle(side)
+        for step, (em, lm) in enumerate(side):
+            o = r.choice(pool2)
+            a0, b0 = nA[0], nB[0]
+            if em == "toggle":
+                dA.disable_effects()
+            ctxs = []
+            try:
+                if lm == "context":
+                    ctxs.append(labrea.logging.disabled())
+                    ctxs[-1].__enter__()
+                got = observe(dA.evaluate, with_switches(o, "on", em, lm))
+            finally:
+                for c in reversed(ctxs):
+                    c.__exit__(None, None, None)
+                if em == "toggle":
+                    dA.enable_effects()
+            exp = observe(dB.evaluate, copy.deepcopy(o))
+            ctx.evaluations += 2
+            ctx.count("cache_on_shadow_steps")
+            if got != exp or (nA[0] - a0) != (nB[0] - b0):
+                ctx.violation("switch-changes-when-the-body-runs", f"caching on, effects {em}, logging {lm}, step {step} on {short(o)}: value {short(got)} / body ran {nA[0] - a0} time(s); "
+                              f"the same history with all switches off: {short(exp)} / {nB[0] - b0} time(s)", {**W, "step": step, "modes": ["on", em, lm], "options": o, "pass": "cache-on-shadow"})
+                return
     finally:
         root.removeHandler(h)
         root.setLevel(old)
